@@ -446,5 +446,7 @@ CHECKS = {
     'C18': dict(modules=['FastPasta.Props.C18'], needs_harness=False, corr='truncation_model', run=run_c18,
                 theorems=['FastPasta.C18.truncated_findings_are_prefix', 'FastPasta.linkRun_append', 'FastPasta.C18.link_findings_prefix',
                           'FastPasta.C18.runValidators_append', 'FastPasta.C18.dispStep_msgs_grow', 'FastPasta.C18.validator_msgs_grow',
-                          'FastPasta.C03.scan_complete_prefix']),
+                          'FastPasta.C03.scan_complete_prefix', 'FastPasta.C18.scan_truncated_in_payload',
+                          'FastPasta.C18.truncated_in_payload_findings_are_prefix', 'FastPasta.C03.scanLoop_tail', 'FastPasta.C03.loadCdp_nomatch',
+                          'FastPasta.C03.filterLoop_reach']),
 }
